@@ -127,6 +127,30 @@ func (sc *Scope) call(e ECall) Val {
 		recv := sc.eval(e.Args[0])
 		return sc.pureMethod(recv, e.Fun[1:], e.Args[1:])
 	}
+	// user-defined spec function (macro): bind parameters, evaluate the body
+	if sd, ok := x.w.SpecDefs[e.Fun]; ok {
+		argN(len(sd.Params))
+		inner := &Scope{x: x, vars: map[string]Val{}, st: sc.st, old: sc.old, pkg: sc.pkg}
+		for i, p := range sd.Params {
+			v := sc.eval(e.Args[i])
+			pt, raw := sc.typeByName(p.Type)
+			if v.K == "const" {
+				if pt != nil {
+					v = sc.convertConst(v, pt)
+				} else if raw == "Int" {
+					v = sc.mathOf(v)
+				}
+			}
+			if v.K == "nil" && pt != nil {
+				v = Val{T: c.zero(pt), Ty: pt}
+			}
+			if pt != nil && v.Ty != nil {
+				v.Ty = pt
+			}
+			inner.vars[p.Name] = v
+		}
+		return inner.eval(sd.Body)
+	}
 	// user-declared uninterpreted spec function: declared via "spec" entries
 	if uf, ok := x.w.SpecUFs[e.Fun]; ok {
 		var ts []string
@@ -171,7 +195,20 @@ func (sc *Scope) applyUF(uf *SpecUF, args []string) Val {
 		rs = c.sortOf(rt)
 	}
 	n := "uf_" + mangle(uf.Name)
+	first := !c.declOf["uf:"+n]
 	c.decl("uf:"+n, fmt.Sprintf("(declare-fun %s (%s) %s)", n, strings.Join(ps, " "), rs))
+	if first {
+		// axioms that mention this function become hypotheses of this query context
+		for _, lm := range sc.x.w.Globals.Lemmas {
+			if !lm.Assumed || c.specDone["axiom:"+lm.Name] || !strings.Contains(lm.Clause.Text, uf.Name+"(") {
+				continue
+			}
+			c.specDone["axiom:"+lm.Name] = true
+			ax := &Scope{x: sc.x, vars: map[string]Val{}, st: sc.st, old: sc.old, pkg: sc.pkg}
+			c.assume(ax.evalBool(lm.Clause.E))
+			c.AssumedUse["axiom "+lm.Name]++
+		}
+	}
 	t := n
 	if len(args) > 0 {
 		t = sx(n, args...)
